@@ -5,6 +5,7 @@ import (
 	"errors"
 
 	"github.com/streamingfast/substreams/orchestrator/plan"
+	pbssinternal "github.com/streamingfast/substreams/pb/sf/substreams/intern/v2"
 	pbsubstreamsrpc "github.com/streamingfast/substreams/pb/sf/substreams/rpc/v2"
 	pbsubstreams "github.com/streamingfast/substreams/pb/sf/substreams/v1"
 	"github.com/streamingfast/substreams/pipeline"
@@ -194,6 +195,65 @@ func VerifC17Request() {
 		sym.Reach("rejected-by-plan")
 		return
 	}
+	sym.Assert(true, "accepted")
+	sym.Reach("accepted")
+}
+
+// VerifC17Tier2: a structurally arbitrary internal (tier2) request is rejected
+// or accepted; validation, graph construction and the stage-indexed lookups
+// that Tier2Service.processRange performs next never panic.
+func VerifC17Tier2() {
+	mods := &pbsubstreams.Modules{Binaries: []*pbsubstreams.Binary{{Type: "wasm/rust-v1", Content: []byte{1}}}}
+	a := &pbsubstreams.Module{Name: "a", BinaryEntrypoint: "e", InitialBlock: sym.U64("init"), Inputs: []*pbsubstreams.Module_Input{c17Source()}}
+	c17Kind(a, 1+sym.Choice("kind-a", 3))
+	b := &pbsubstreams.Module{Name: "b", BinaryEntrypoint: "e", InitialBlock: sym.U64("init"), Inputs: []*pbsubstreams.Module_Input{c17Source()}}
+	c17Kind(b, 1)
+	if sym.Choice("b-reads-a", 2) == 1 {
+		b.Inputs = append(b.Inputs, c17Input())
+	}
+	mods.Modules = []*pbsubstreams.Module{a, b}
+	str := func(name string) string {
+		if sym.Choice(name, 2) == 1 {
+			return "x"
+		}
+		return ""
+	}
+	req := &pbssinternal.ProcessRangeRequest{
+		StopBlockNum:         sym.U64("legacy-stop"),
+		OutputModule:         []string{"a", "b", "zz", ""}[sym.Choice("output", 4)],
+		Stage:                sym.U32("stage"),
+		MeteringConfig:       str("metering"),
+		BlockType:            "sf.test.Block",
+		StateStore:           str("state-store"),
+		MergedBlocksStore:    str("merged-store"),
+		SegmentSize:          sym.U64("segment-size"),
+		SegmentNumber:        sym.U64("segment-number"),
+		FirstStreamableBlock: sym.U64("first-streamable"),
+	}
+	if sym.Choice("modules-absent", 2) == 0 {
+		req.Modules = mods
+	}
+	if err := ValidateTier2Request(req); err != nil {
+		sym.Reach("rejected-by-validation")
+		return
+	}
+	// Tier2Service.processRange
+	execGraph, err := exec.NewOutputModuleGraph(req.OutputModule, true, req.Modules, req.FirstStreamableBlock)
+	if err != nil {
+		sym.Reach("rejected-by-graph")
+		return
+	}
+	// (mirrored glue of processRange, including its stage range guard)
+	if int(req.Stage) >= len(execGraph.StagedUsedModules()) {
+		sym.Reach("rejected-stage")
+		return
+	}
+	details := pipeline.BuildRequestDetailsFromSubrequest(req)
+	_ = execGraph.ModuleHashes().Get(details.OutputModule)
+	_ = req.StartBlock()
+	_ = req.StopBlock()
+	_ = execGraph.UsedModulesUpToStage(int(req.Stage))
+	_ = execGraph.UsedIndexesModulesUpToStage(int(req.Stage))
 	sym.Assert(true, "accepted")
 	sym.Reach("accepted")
 }
